@@ -69,6 +69,7 @@ EXTRA_DOCS = {
     "collide_schema": ('===COLLIDE===\nMETA:\n  TYPE::PROTOCOL_DEFINITION\n  VERSION::"1.0"\n---\nFIELDS:\n  Priority::["x"∧REQ]\n  PRIORITY::["y"∧OPT]\n'
                        '  A-B::[1∧TYPE[NUMBER]]\n  A_B::[2∧TYPE[NUMBER]]\n===END===\n'),
     "collide_schema2": ('===COLLIDE2===\nMETA:\n  TYPE::PROTOCOL_DEFINITION\n  VERSION::"1.0"\n---\nFIELDS:\n  Status::["x"∧REQ]\n  STATUS::["y"∧OPT]\n===END===\n'),
+    "multiline_str": '===M===\nK::"l1\\nl2"\nL::["a\\nb",c]\nB:\n  M::"x\\ny\\nz"\n===END===\n',
     "repairable": '===I===\nMETA:\n  TYPE::X\n  VERSION::"1.0"\n---\nGENW:\n  NAME::n\n  STATUS::active\n  COUNT::"5"\n===END===\n',
 }
 
@@ -123,6 +124,11 @@ def call_list():
     add("write", _existing="===D===\n" + secs + "===END===\n", changes={"ONLY": "x"}, target_path="lost2.oct.md")
     add("write", _existing=docs["flat"], changes={"A": [1, 2, 3], "NEW": {"k": "v"}}, target_path="c.oct.md")
     add("write", _existing=docs["lenient"], target_path="n.oct.md")
+    for nm in ("zones", "multiline_str", "rich", "multiline_str"):      # process-wide serialiser settings must not leak from one call to the next
+        for fmt in ("yaml", "json", "markdown"):
+            add("eject", content=docs[nm], schema="META", mode="canonical", format=fmt)
+    add("write", _existing=docs["meta_valid"], changes={"META": {"ZULU": 1, "ALPHA": 2, "MIKE": 3, "BRAVO": 4, "XRAY": 5, "ECHO": 6}}, target_path="mk.oct.md")
+    add("write", _existing=docs["flat"], changes={"ZULU": 1, "ALPHA": 2, "MIKE": 3, "BRAVO": 4, "XRAY": 5}, target_path="mk2.oct.md")
     return K
 
 
